@@ -340,6 +340,7 @@ func (vc *VC) execFor(st *State, x *ast.ForStmt, label string) []*State {
 		vc.checkInvs(o, ls, "inv-preserve", entry, n, vc.pos(x))
 	}
 	exits = append(exits, tg.breaks...)
+	vc.coverLoopExit(n, exits, entry, vc.pos(x))
 	vc.anchors(exits, fmt.Sprintf("afterloop%d", n), entry)
 	return exits
 }
@@ -580,6 +581,7 @@ func (vc *VC) execRange(st *State, x *ast.RangeStmt, label string) []*State {
 		vc.checkInvs(o, ls, "inv-preserve", entry, n, vc.pos(x))
 	}
 	exits := append([]*State{exitSt}, tg.breaks...)
+	vc.coverLoopExit(n, exits, entry, vc.pos(x))
 	vc.anchors(exits, fmt.Sprintf("afterloop%d", n), entry)
 	return exits
 }
@@ -808,6 +810,7 @@ func (vc *VC) execForeach(st *State, call *ast.CallExpr, spec *FuncSpec, callee 
 		for _, o := range iter(bodySt) {
 			vc.checkInvs(o, ls, "inv-preserve", entry, n, vc.pos(call))
 		}
+		vc.coverLoopExit(n, []*State{exit}, entry, vc.pos(call))
 		vc.anchors([]*State{exit}, fmt.Sprintf("afterloop%d", n), entry)
 	}
 	if lockHeap != "" {
@@ -816,4 +819,33 @@ func (vc *VC) execForeach(st *State, call *ast.CallExpr, spec *FuncSpec, callee 
 	}
 	*st = *exit
 	vc.note("for-each call " + exprString(call.Fun) + " executed as a loop over " + fld + " at the call site (contract option foreach)")
+}
+
+// coverLoopExit: vacuity probe for loop cutting. The state in which a loop is left (head state: invariants and the
+// engine's own facts assumed over havocked variables, plus the negated guard) must be satisfiable unless the state
+// before the loop already was not; otherwise everything after the loop would be provable.
+func (vc *VC) coverLoopExit(n int, exits []*State, entry *State, where string) {
+	if vc.dry > 0 || vc.quiet > 0 || len(exits) == 0 || vc.unroll > 0 {
+		return
+	}
+	key := fmt.Sprintf("loop%d", n)
+	if vc.callCovered[key] {
+		return
+	}
+	vc.callCovered[key] = true
+	// all exit states are joined: it is enough that one of them is reachable
+	var alts []string
+	base := len(entry.facts)
+	for _, e := range exits {
+		if len(e.facts) < base {
+			return
+		}
+		alts = append(alts, and(e.facts[base:]...))
+	}
+	st := entry.clone()
+	st.assume(or(alts...))
+	if o := vc.oblige(st, "cover-loop-exit", fmt.Sprintf("the state after loop %d of %s is reachable", n, vc.fi.Key), where, "false", nil); o != nil {
+		o.Cover = true
+		o.PreFacts = append([]string(nil), entry.facts...)
+	}
 }
